@@ -69,7 +69,7 @@ func (ex *Exec) setupGhostsAndSpecs() error {
 			return fmt.Errorf("%s:%d: package %s not loaded", g.File, g.Line, g.PkgPath)
 		}
 		ensureIntrinsics(pk.Types)
-		sig, err := sigOf(pk, pkgPos(pk, ex.cs.Scope[pk.PkgPath]), g.Sig)
+		sig, err := sigOf(pk, pkgPos(pk, g.Scope), g.Sig)
 		if err != nil {
 			return fmt.Errorf("%s:%d: ghost %s: %v", g.File, g.Line, g.Name, err)
 		}
@@ -90,7 +90,7 @@ func (ex *Exec) setupGhostsAndSpecs() error {
 		}
 		head := strings.TrimSpace(s.Text[:i]) // "func name(params) T"
 		sigText := strings.TrimPrefix(head, "func "+s.Name)
-		pos := pkgPos(pk, ex.cs.Scope[pk.PkgPath])
+		pos := pkgPos(pk, s.Scope)
 		sig, err := sigOf(pk, pos, sigText)
 		if err != nil {
 			return fmt.Errorf("%s:%d: spec func %s: %v", s.File, s.Line, s.Name, err)
